@@ -366,7 +366,12 @@ template< typename T, typename F>
 {
    if (mpObject != nullptr)
    {
-      if (mIndex > 0)
+      if (mIndex == EndValue)
+      {
+         // step back from end() to the last character
+         if (!mpObject->empty())
+            mIndex = mpObject->length() - 1;
+      } else if (mIndex > 0)
          --mIndex;
       else
          mIndex = EndValue;
